@@ -71,6 +71,9 @@ type c17Row struct {
 	First string
 	Words []string
 	Kind  string
+	// MayBeAbsent: a visible option of a visible group that sits inside a hidden group; whether it is listed is
+	// C16's subject (and unspecified there) - if it is listed, the layout rules apply to it
+	MayBeAbsent bool
 }
 
 // c17Check verifies the layout of one help text.
@@ -104,6 +107,9 @@ func c17Check(out string, rows []c17Row, W int) (string, string, int) {
 				li, col = i, utf8.RuneCountInString(ln[:j])
 				break
 			}
+		}
+		if li < 0 && row.MayBeAbsent {
+			continue
 		}
 		if li < 0 {
 			return "words:first-word-missing:" + row.Kind, fmt.Sprintf("first description word %q of a %s row not found in the help text", row.First, row.Kind), D
@@ -206,7 +212,7 @@ func c17Run(c *Ctx) {
 	cfg := &DeclCfg{
 		MaxDepth: 2, MaxFan: 3, PCmds: 50, Types: []TypeSpec{{K: KString}, {K: KBool}, {K: KInt}, {K: KString, W: WSlice}, {K: KFloat64}, {K: KString, W: WMap, MapKey: KString}, {K: KOnOff}, {K: KOnOff, W: WSlice}},
 		OptsMin: 1, OptsMax: 4, SubGroupsMax: 2, NestMax: 2, PNamespace: 30, PShortOnly: 15, PLongOnly: 30, PChoices: 15,
-		PPos: 50, PosMax: 3, PRest: 40, PByTag: 60, PSubOptional: 50, PAliases: 20, PDesc: 0, PValueName: 35, PDefault: 20,
+		PPos: 50, PosMax: 3, PRest: 40, PByTag: 60, PSubOptional: 50, PAliases: 20, PDesc: 0, PValueName: 35, PDefault: 20, PHiddenGrp: 15, PHiddenCmd: 10, PHidden: 8,
 		ParserOpts: []flags.Options{flags.HelpFlag, 0, flags.HelpFlag | flags.PassDoubleDash}, NoHelpNames: true,
 		PosTypes: []TypeSpec{{K: KString}},
 	}
@@ -340,8 +346,12 @@ func c17Run(c *Ctx) {
 	}
 	for _, cm := range active {
 		for _, o := range cm.OwnOpts() {
-			if o.Desc == "" {
+			if o.Desc == "" || o.Hidden || o.Grp.Hidden {
 				continue
+			}
+			inHidden := o.Cmd.Hidden // (a hidden command is a hidden group: its own options are left out when it is active)
+			for g := o.Grp.Parent; g != nil; g = g.Parent {
+				inHidden = inHidden || g.Hidden
 			}
 			text := o.Desc
 			if routeA && len(o.Defaults) > 0 && !o.T.IsFlag() {
@@ -351,7 +361,7 @@ func c17Run(c *Ctx) {
 				}
 				text += " (default: " + strings.Join(q, ", ") + ")"
 			}
-			rows = append(rows, c17Row{First: strings.Fields(o.Desc)[0], Words: strings.Fields(text), Kind: "option"})
+			rows = append(rows, c17Row{First: strings.Fields(o.Desc)[0], Words: strings.Fields(text), Kind: "option", MayBeAbsent: inHidden})
 		}
 		if cm.Pos != nil {
 			for _, a := range cm.Pos.Args {
